@@ -227,7 +227,9 @@ func (t *WSTransport) getOrDial(ctx context.Context, opts common.Options) (*wsCo
 	t.mu.Lock()
 	delete(t.dialing, key)
 
-	if err == nil {
+	// A connection that already shut down (its removeConn ran before this insert) must not be
+	// registered: nothing would ever remove it again.
+	if err == nil && !conn.isClosed() {
 		t.conns[key] = conn
 	}
 	t.mu.Unlock()
